@@ -139,7 +139,19 @@ fn check_expression(src: &str, st: &mut Stats) {
         st.nontrivial += 1;
     }
     let ok = match (&direct, &via) {
-        (Ok(a), Ok(b)) => a == b,
+        // equal by the crate's own `PartialEq` and by the derived `Debug` rendering: neither alone defines "the same tree"
+        (Ok(a), Ok(b)) => {
+            a == b && format!("{:?}", a) == format!("{:?}", b) && format!("{}", a) == format!("{}", b) && {
+                // and they behave alike: evaluated in the same small context, same result and same context afterwards
+                let run = |t: &Node<DefaultNumericTypes>| {
+                    let mut c = HashMapContext::<DefaultNumericTypes>::new();
+                    let _ = c.set_value("a".into(), Value::Int(3));
+                    let r = guarded(|| t.eval_with_context_mut(&mut c)).map(|r| format!("{:?}", r)).unwrap_or_else(|_| "panic".into());
+                    (r, observe(&c))
+                };
+                run(a) == run(b)
+            }
+        },
         (Err(e), Err(se)) => se.code == ron::Error::Message(e.to_string()),
         _ => false,
     };
@@ -471,6 +483,54 @@ fn part_code_points(st: &mut Stats) {
 
 /// Long expressions and contexts with many variables.
 fn part_scaling(thorough: bool, st: &mut Stats) {
+    // names and strings that collide with the vocabulary of the serialized form (round 12): a variable
+    // named like a field of the context or like a variant of Value, a string that spells a float, a boolean,
+    // a unit or a variant — under every such name, every such string and every pool value, alone, inside a
+    // tuple, and two at a time
+    {
+        let names = [
+            "variables", "functions", "without_builtin_functions", "Int", "Float", "String", "Boolean", "Tuple", "Empty", "true", "false", "inf", "NaN", "Some", "None", "x",
+        ];
+        let spellings = [
+            "inf", "-inf", "+inf", "NaN", "nan", "Infinity", "infinity", "-Infinity", "1e999", "-1e999", "1", "-1", "1.5", "-0", "0x10", "true", "false", "()", "Empty", "Int(1)", "[1]", "(1,2)", "\"q\"", "String(\"a\")", "null", "",
+        ];
+        let pool: Vec<EV> = value_pool().into_iter().filter(value_usable).collect();
+        let mut values: Vec<EV> = spellings.iter().map(|s| Value::String(s.to_string())).collect();
+        values.extend(pool.iter().cloned());
+        for v in &values {
+            st.evaluations += 1;
+            st.count("b/values-round-tripped");
+            for w in [v.clone(), Value::Tuple(vec![v.clone(), Value::Int(1)]), Value::Tuple(vec![Value::Tuple(vec![v.clone()])])] {
+                let ok = match ron::ser::to_string(&w).ok().and_then(|s| ron::de::from_str::<EV>(&s).ok()) {
+                    Some(b) => vkey(&b) == vkey(&w),
+                    None => false,
+                };
+                if !ok {
+                    st.violation(Viol {
+                        kind: "value-round-trip-differs".into(),
+                        input: format!("{{\"value\": {}}}", esc(&vkey(&w))),
+                        expected: vkey(&w),
+                        actual: format!("{:?}", ron::ser::to_string(&w).map(|s| ron::de::from_str::<EV>(&s))),
+                    });
+                }
+            }
+        }
+        for (i, n) in names.iter().enumerate() {
+            for (j, v) in values.iter().enumerate() {
+                for disabled in [false, true] {
+                    let mut c = HCtx::new();
+                    c.set_value(n.to_string(), v.clone()).unwrap();
+                    // a second variable under the next name, holding the next value
+                    if (i + j) % 3 == 0 {
+                        c.set_value(names[(i + 1) % names.len()].to_string(), values[(j + 1) % values.len()].clone()).unwrap();
+                    }
+                    c.set_builtin_functions_disabled(disabled).unwrap();
+                    check_context(&c, &format!("variable {:?} = {}, builtins disabled {}", n, vkey(v), disabled), st);
+                    *st.counters.entry("b/vocabulary-collision-contexts".into()).or_insert(0) += 1;
+                }
+            }
+        }
+    }
     let mut sizes: Vec<usize> = (1..=if thorough { 40 } else { 20 }).collect();
     sizes.extend(if thorough { vec![64, 65, 100, 129, 200, 400] } else { vec![33, 64, 65, 129] });
     for n in sizes {
@@ -528,7 +588,7 @@ fn write_outputs(tier: &str, seed: u64, st: &Stats, wall: f64) -> i32 {
         st.states,
         st.transitions,
         st.transitions,
-        esc("(a) depth-first search over every token sequence up to the tier's length over a 14-token alphabet and every character string up to the tier's length over 25 characters (quotes, backslashes, newline, multi-byte, signs, digits, dot, e, x, punctuation), each encoded as a RON string with ron::ser::to_string and decoded as Node: Ok trees must equal build_operator_tree(s), Err messages must equal error.to_string(); (b) every HashMapContext reachable by API histories up to the tier's depth over {set_value of 4 names (two differing only in case, one with a space and a non-ASCII letter, the empty name) x a value pool of all six types incl. i64 extremes, signed zero, subnormal, infinities, NaN, nested/empty tuples, hostile strings; clear_variables; set_function (also under the name of a variable); builtin switch on/off; expression assignments; replacing the context by its own deserialized copy, so that histories continue from deserialized contexts}: from_str(to_string(c)), and the same through pretty output with struct names, must have the same sorted variable map (floats by bits), the same switch and resolve no user function; plus every pool value as a bare Value; plus every character in 0..=0x3000 inside the expression string (string content, identifier, alone, comment) and in variable names; plus scaling families (expressions of n terms / nesting depth n / strings of n escapes, contexts with n variables incl. case-colliding names and an n-tuple, n in 1..20 and up to 129 / 1..40 and up to 400). A state is a token/character prefix or a context history; a transition appends a token or applies an operation; every state is executed on the implementation. Non-trivial = sources of >= 3 bytes and contexts with >= 2 variables (each enumerated once)"),
+        esc("(a) depth-first search over every token sequence up to the tier's length over a 14-token alphabet and every character string up to the tier's length over 25 characters (quotes, backslashes, newline, multi-byte, signs, digits, dot, e, x, punctuation), each encoded as a RON string with ron::ser::to_string and decoded as Node: Ok trees must equal build_operator_tree(s) — by the crate's PartialEq and by the derived Debug and the Display rendering and by behaviour (evaluated with a = 3 in a fresh context: same result, same context afterwards) —, Err messages must equal error.to_string(); (b) every HashMapContext reachable by API histories up to the tier's depth over {set_value of 4 names (two differing only in case, one with a space and a non-ASCII letter, the empty name) x a value pool of all six types incl. i64 extremes, signed zero, subnormal, infinities, NaN, nested/empty tuples, hostile strings; clear_variables; set_function (also under the name of a variable); builtin switch on/off; expression assignments; replacing the context by its own deserialized copy, so that histories continue from deserialized contexts}: from_str(to_string(c)), and the same through pretty output with struct names, must have the same sorted variable map (floats by bits), the same switch and resolve no user function; plus every pool value as a bare Value; plus 16 variable names that collide with the vocabulary of the serialized form (`variables`, `functions`, `without_builtin_functions`, `Int`, `Tuple`, `Empty`, `true`, `inf`, `NaN` ...) x (26 strings that spell a float, a boolean, a unit or a variant — `inf`, `-inf`, `NaN`, `1e999`, `true`, `()`, `Int(1)` ... — and every pool value), bare, inside tuples and in contexts with the switch on and off; plus every character in 0..=0x3000 inside the expression string (string content, identifier, alone, comment) and in variable names; plus scaling families (expressions of n terms / nesting depth n / strings of n escapes, contexts with n variables incl. case-colliding names and an n-tuple, n in 1..20 and up to 129 / 1..40 and up to 400). A state is a token/character prefix or a context history; a transition appends a token or applies an operation; every state is executed on the implementation. Non-trivial = sources of >= 3 bytes and contexts with >= 2 variables (each enumerated once)"),
         samples,
         counters,
         [
